@@ -295,6 +295,9 @@ def run_and_validate(chk, behaviours, label):
     emitting = [ln for ln in flat if ln.split()[0] != "cfg"]
     if len(events) != len(emitting):
         raise vlib.MachineryError("driver wrote %d events for %d commands (%s)" % (len(events), len(emitting), label))
+    silent = [e for e in events if e["op"] == "req" and e.get("status") == "NONE"]
+    if silent:
+        raise vlib.MachineryError("the daemon did not answer %d request(s) within the driver's time limit (%s): %s" % (len(silent), label, json.dumps(silent[0])[:600]))
     res = vlib.validate("ControlTrace", trace)
     nb = sum(1 for e in events if e["op"] == "reset")
     chk.add_traces(nb, len(events), res, label)
